@@ -66,3 +66,19 @@ macro_rules! ob {
         assert!($cond, concat!("OB:", $name))
     };
 }
+
+/// Reachability witness at the call site (distinct source location per cover, so Kani reports each
+/// one separately): the driver requires every cover to be SATISFIED, so a contradictory `assume`
+/// cannot make an obligation pass vacuously.
+#[macro_export]
+macro_rules! cov {
+    ($g:ident, $c:expr) => {{
+        #[cfg(kani)]
+        kani::cover!($c, "VACUITY-GUARD");
+        #[cfg(not(kani))]
+        {
+            let _ = &$g;
+            let _ = $c;
+        }
+    }};
+}
